@@ -5,9 +5,10 @@ sizeof / _Alignof / offsetof (one generated C file per shard, natural layout and
 
 Declaration specs (json lists): ["leaf", ctype] | ["arr", spec, n] | ["struct", [member specs]] | ["union", [...]].
 Lattice (top-level declarations are structs and unions, members named m0, m1, ...):
-  A   members from all 13 leaf types (char, short, int, long, long long, float, double, void*, unsigned variants)
-      and their arrays [1..3]                                   (quick: arrays of the 4 core types only)
-  B   members from core leaves {char, short, int, long}, their arrays [1..3], nested struct/union of <= 2 members
+  A   members from all 14 leaf types (char, short, int, long, long long, float, double, long double, void*,
+      unsigned variants) and their arrays [1..3]        (quick: arrays of the 5 core types only)
+  B   members from core leaves {char, short, int, long, long double} (one per alignment class 1/2/4/8/16; quick:
+      nested core {char, int, long, long double}), their arrays [1..3], nested struct/union of <= 2 members
       (thorough: nested members may also be char[3] / short[3]) and arrays [2] of those nested aggregates
   quick: <= 2 members; thorough: <= 3 members (3 members over A-quick, over core u nested(core), and the
   sandwich core / B-member / core).
@@ -33,22 +34,24 @@ ENGINE = "enum"
 RULE = ("every struct/union declaration of the depth<=2 grammar (see bounds) x {natural, packed} x every nested "
         "aggregate x every field path; a declaration is non-trivial when gcc's natural layout differs from its packed "
         "layout (alignment inserts padding) or it contains a union (members alias)")
-LEVEL_TEXT = ("Bounded-exhaustive: every declaration of an explicit grammar over all supported scalar types, arrays [1..3] "
+LEVEL_TEXT = ("Bounded-exhaustive: every declaration of an explicit grammar over all supported scalar types (long double included: the only 16-byte-aligned leaf), arrays [1..3] "
               "and nested structs/unions, with <=3 members, compared with the numbers gcc computes for x86-64 (natural and "
               "packed), for every nested aggregate and every field path; plus the C-access <-> expression round trip on "
               "every field path.")
 LEVEL_NOTE = ("Trusted: gcc -m64 as evaluator of sizeof/_Alignof/offsetof, pycparser, expr_simp (used to normalise "
-              "addresses before comparing them). Nested aggregates at depth 2 draw members from the 4 core integer types "
-              "(all (size, align) classes 1/2/4/8). Not covered: bit-fields, enums, long double, function pointers, "
+              "addresses before comparing them). Nested aggregates at depth 2 draw members from the core types "
+              "(one per (size, align) class 1/2/4/8/16; quick leaves the 2-byte class to the un-nested products). "
+              "Not covered: bit-fields, enums, function pointers, "
               "typedef chains, anonymous members, flexible arrays, pointer-to-pointer chains.")
 TECHNIQUE = "complete enumeration of C declarations; layout compared with gcc; access translation round trip per field path"
 ASSUMPTIONS = ["the local gcc targeting x86-64 implements the System V ABI layout and GNU packed layout",
                "for the packed manager every struct/union of the declaration carries __attribute__((packed))",
                "expressions are compared after expr_simp"]
 
-LEAF13 = ["char", "short", "int", "long", "long long", "float", "double", "void*", "unsigned char",
+LEAVES = ["char", "short", "int", "long", "long long", "float", "double", "long double", "void*", "unsigned char",
           "unsigned short", "unsigned int", "unsigned long", "unsigned long long"]
-CORE4 = ["char", "short", "int", "long"]
+CORE = ["char", "short", "int", "long", "long double"]
+NESTED_CORE = ["char", "int", "long", "long double"]
 GCC = ["gcc", "-m64", "-O0", "-w", "-std=gnu11"]
 
 
@@ -153,48 +156,49 @@ def nested_aggs(members, kmax):
 
 
 def lattice(quick):
-    l13 = [leaf(n) for n in LEAF13]
-    c4 = [leaf(n) for n in CORE4]
-    a_quick = l13 + arrays_of(c4, (1, 2, 3))
+    leaves = [leaf(n) for n in LEAVES]
+    core = [leaf(n) for n in CORE]          # one type per (size, align) class 1, 2, 4, 8, 16
+    ncore = [leaf(n) for n in NESTED_CORE]  # members of the small nested aggregates
+    a_quick = leaves + arrays_of(core, (1, 2, 3))
+    nq = nested_aggs(ncore, 2)
     if quick:
         for d in tops(a_quick, (1, 2)):
             yield d
-        nq = nested_aggs(c4, 2)
-        mb = c4 + arrays_of(c4, (1, 2, 3)) + nq + arrays_of(nq, (2,))
+        mb = ncore + arrays_of(ncore, (1, 2, 3)) + nq + arrays_of(nq, (2,))
         for d in tops(mb, (1, 2), need_nested=True):
             yield d
         return
-    a_full = l13 + arrays_of(l13, (1, 2, 3))
+    a_full = leaves + arrays_of(leaves, (1, 2, 3))
     for d in tops(a_full, (1, 2)):
         yield d
     for d in tops(a_quick, (3,)):
         yield d
-    e6 = c4 + [["arr", leaf("char"), 3], ["arr", leaf("short"), 3]]
-    nt = nested_aggs(e6, 2)
-    mb = c4 + arrays_of(c4, (1, 2, 3)) + nt + arrays_of(nt, (2,))
+    e7 = core + [["arr", leaf("char"), 3], ["arr", leaf("short"), 3]]
+    nt = nested_aggs(e7, 2)
+    mb = core + arrays_of(core, (1, 2, 3)) + nt + arrays_of(nt, (2,))
     for d in tops(mb, (1, 2), need_nested=True):
         yield d
-    nq = nested_aggs(c4, 2)
-    for d in tops(c4 + nq, (3,), need_nested=True):
+    for d in tops(core + nq, (3,), need_nested=True):
         yield d
     for kind in ("struct", "union"):
-        for a in c4:
+        for a in core:
             for mid in mb:
                 if not has_agg(mid) or mid in nq:
-                    continue        # nested(core) in the middle is already part of the 3-member product above
-                for b in c4:
+                    continue        # nested(ncore) in the middle is already part of the 3-member product above
+                for b in core:
                     yield [kind, [a, mid, b]]
 
 
 def bounds_for(quick):
     return {
-        "leaf_types": LEAF13,
-        "core_types": CORE4,
+        "leaf_types": LEAVES,
+        "core_types": CORE,
+        "nested_core_types": NESTED_CORE,
         "array_lengths": [1, 2, 3],
         "nested_aggregate_array_length": 2,
         "max_members": 2 if quick else 3,
         "nested_members": 2,
-        "nested_member_alphabet": "core" if quick else "core + char[3] + short[3]",
+        "nested_member_alphabet": "nested core" if quick else "core + char[3] + short[3]",
         "managers": ["CTypesManagerNotPacked", "CTypesManagerPacked"],
     }
 
@@ -539,14 +543,11 @@ def check_decls(decls, workdir, name):
 
 
 def _shard(args):
-    quick, idx, nsh = args
+    quick, idx, nsh, workdir = args
     warnings.simplefilter("ignore")
     decls = [(i, spec) for i, spec in enumerate(lattice(quick)) if i % nsh == idx]
-    workdir = tempfile.mkdtemp(prefix="c35_")
-    try:
-        res = check_decls(decls, workdir, "shard%d" % idx)
-    finally:
-        shutil.rmtree(workdir, ignore_errors=True)
+    # run_gcc unlinks its two files; the directory belongs to run(), which removes it in its finally
+    res = check_decls(decls, workdir, "shard%d" % idx)
     n = nt = 0
     by_sig = {}
     stats = {}
@@ -576,7 +577,11 @@ def run(ctx):
     if shutil.which("gcc") is None:
         raise RuntimeError("gcc not found (needed as the layout evaluator)")
     nsh = 32 if quick else 128
-    res = ctx.pmap(_shard, [(quick, i, nsh) for i in range(nsh)])
+    workdir = tempfile.mkdtemp(prefix="c35_")
+    try:
+        res = ctx.pmap(_shard, [(quick, i, nsh, workdir) for i in range(nsh)])
+    finally:
+        shutil.rmtree(workdir, ignore_errors=True)
     n = sum(r[0] for r in res)
     nt = sum(r[1] for r in res)
     stats = {}
